@@ -34,6 +34,24 @@ class Marker(Native):
         return other is self
 
 
+def _fold_compile(calls):
+    """re.compile(P, F).entry(text) is the module-level re.entry(P, text, F) spelled in two steps (CPython's module
+    functions are defined exactly so): a compile immediately followed by one call on the object it returned counts
+    as one module-arm call with that pattern and those flags."""
+    out = []
+    i = 0
+    while i < len(calls):
+        c = calls[i]
+        if c["via"] == "module" and c["entry"] == "compile" and i + 1 < len(calls) and calls[i + 1]["via"] == "compiled" \
+                and calls[i + 1]["pattern"] == c["pattern"] and calls[i + 1]["flags"] == c["flags"]:
+            out.append(dict(calls[i + 1], via="module"))
+            i += 2
+        else:
+            out.append(c)
+            i += 1
+    return out
+
+
 def run(ctx, model):
     ctx.explanation = (
         "The methods of Pregex that call `re` are walked by the abstract interpreter with `re` replaced by a "
@@ -79,14 +97,28 @@ def run(ctx, model):
 
     # ---------------- R-DUAL
     for meth, entry in DUAL.items():
-        f = model.method(PRE, "Pregex", meth)
+        if meth == "__iterate_match_objects":
+            try:
+                f = model.method(PRE, "Pregex", meth)
+            except AnalysisError:
+                # no dedicated private iterator (e.g. one dispatcher for all three): the finditer site is observed
+                # through the public generator that yields matches with their positions
+                meth = "iterate_matches_and_pos"
+                f = model.method(PRE, "Pregex", meth)
+        else:
+            f = model.method(PRE, "Pregex", meth)
         for has in (True, False):
             mf = (lambda subj: MM.std_matches(subj)) if has else (lambda subj: [])
             res = {}
             for compiled in (False, True):
                 args = [TEXT] if meth != "__iterate_match_objects" else [TEXT, False]
                 kind, v, hooks, o = MM.run_method(model, meth, args, compiled=compiled, matches_for=mf)
-                calls = [c for c in hooks.calls]
+                if meth == "iterate_matches_and_pos" and kind == "return":
+                    try:
+                        v = [MM.AbsMatch(TEXT, s_, e_) for _, s_, e_ in list(v)]
+                    except PyRaise as e:
+                        kind, v = "raise", e
+                calls = _fold_compile([c for c in hooks.calls])
                 inp = f"{meth} compiled={compiled} text-has-match={has}"
                 ctx.instance("R-DUAL", key=inp, sample=f"{inp}: calls={[(c['via'], c['entry'], c.get('subject')) for c in calls]} -> {v!r}")
                 if kind == "raise":
@@ -125,7 +157,7 @@ def run(ctx, model):
                                       f"{meth}: the uncompiled arm runs under flags {c['flags']!r} instead of MULTILINE|DOTALL",
                                       f.node.lineno, inp=inp)
                 # result passthrough
-                if meth == "__iterate_match_objects":
+                if meth in ("__iterate_match_objects", "iterate_matches_and_pos"):
                     want = MM.std_matches(TEXT) if has else []
                     try:
                         got = list(v)
@@ -141,7 +173,8 @@ def run(ctx, model):
     ctx.floor("R-DUAL", ctx.rule_counts.get("R-DUAL", 0), 12, "dual-path evaluations")
 
     # ---------------- R-CACHE
-    cache = "_Pregex__compiled"
+    from ..absdom import cache_field
+    cache = cache_field(model)
     allowed = {"__init__": "none", "compile": "compile", "get_compiled_pattern": "none"}
     writers = []
     for fn in model.all_functions():
@@ -168,7 +201,7 @@ def run(ctx, model):
             ctx.violation("R-CACHE", fn.relpath, fn.short, norm_text(st),
                           "the compiled cache is written outside __init__ (None) / compile (re.compile) / "
                           "get_compiled_pattern (None)", node.lineno)
-    ctx.floor("R-CACHE", len(writers), 3, "writers of the compiled cache")
+    ctx.floor("R-CACHE", len(writers), 2, "writers of the compiled cache")
     # compile(): one re.compile with the class flags
     kind, v, hooks, o = MM.run_method(model, "compile", [])
     cf = model.method(PRE, "Pregex", "compile")
